@@ -18,7 +18,7 @@ proved theorem is `mdl_in_distribution_partial`, which excludes exactly those sy
 full statement is proved with a concrete witness in `Findings/C18.lean`.
 -/
 namespace ChythonModel.Props.C18
-open ChythonModel.Gen ChythonModel.Spec ChythonModel.Model.C18 ChythonModel.Proofs.C18
+open ChythonModel.Gen ChythonModel.Spec ChythonModel.Model.C18 ChythonModel.Proofs.C18 ChythonModel.Model ChythonModel.Gen.Bits
 
 /-! ## lookups as the code performs them: `fromSymbol`, `fromNumber`, `keys` are the definitions of `Model/C18Atom.lean`
 (the ones `drv_c18` runs against the real lookups on every check) -/
@@ -271,10 +271,8 @@ theorem accelerated_finds_own_state_grid :
     (periodicTable.all fun r => (states r).all fun o => accelFound r o none o (some 0) 0 0 == some true) = true := by
   decide +kernel
 
-/-- proved part of `MatcherFindsEveryState`: all elements × all tabulated isotopes | none × charges −4…4 × radical flag (the
-    quantifier of the property), at hydrogens = 0, neighbours = heteroatoms = 0.  The hydrogen / neighbour / heteroatom fields
-    are covered on the unlabelled neutral state of every element by `matcher_count_fields`; what is missing for the full
-    statement is the product of the two (the fields occupy disjoint bit ranges, which is not proved here). -/
+/-- the grid statement in ∀-form, with the reference matcher: all elements × all tabulated isotopes | none × charges −4…4 ×
+    radical flag (the quantifier of the property), at hydrogens = 0, no neighbours -/
 theorem matcher_finds_every_state_partial :
     ∀ r ∈ periodicTable, ∀ o ∈ states r,
       accelFound r o none o (some 0) 0 0 = some true ∧ pyFound r o none o (some 0) 0 0 = true := by
@@ -286,12 +284,25 @@ theorem matcher_finds_every_state_partial :
   rw [List.all_eq_true] at this
   simpa using this o ho
 
-/-- hydrogen counts 0…4/unknown, and neighbour = heteroatom counts 0…14, on the unlabelled neutral atom of every element -/
+/-- the count fields of the layout: the bit of every hydrogen count (unknown, 0…4) lies inside the query's "any hydrogens" mask,
+    the bit of every neighbour / heteroatom count 0…14 inside the "any neighbours" / "any heteroatoms" mask, and all fit 64 bits -/
 theorem matcher_count_fields :
-    (periodicTable.all fun r =>
-      (hydrogens.all fun h => accelFound r ⟨none, 0, false⟩ none ⟨none, 0, false⟩ h 0 0 == some true) &&
-      ((List.range 15).all fun k => accelFound r ⟨none, 0, false⟩ none ⟨none, 0, false⟩ (some 0) k k == some true)) = true := by
-  decide +kernel
+    (∀ h ∈ hydrogens, subBits (1 <<< (Bits.hOr h + sHOff)) qHAll ∧ 1 <<< (Bits.hOr h + sHOff) < Bits.two64) ∧
+    (∀ k ∈ List.range 15, subBits (1 <<< (k + sNbOff)) qNbAll ∧ 1 <<< (k + sNbOff) < Bits.two64 ∧
+        subBits (1 <<< k) qHetAll ∧ 1 <<< k < Bits.two64) := by
+  unfold subBits; decide +kernel
+
+/-- **the full statement**: every state of the grid, with every hydrogen count and every neighbour / heteroatom count, is found by
+    its own query atom in both matchers (grid evaluation at counts 0 lifted to all counts by `accel_lift`: word 3 is an OR of
+    independent parts and the test is an inclusion per part). -/
+theorem matcher_finds_every_state : MatcherFindsEveryState := by
+  intro r hr o ho h hh nb hnb het hhet
+  refine ⟨?_, reference_matcher_finds_every_state r hr o ho _ _ _⟩
+  obtain ⟨fh, fk⟩ := matcher_count_fields
+  have hnb' := fk nb (List.mem_range.mpr (by omega))
+  have hhet' := fk het (List.mem_range.mpr (by omega))
+  exact accel_lift r o h nb het (fh h hh).1 (fh h hh).2 hnb'.1 hnb'.2.1 hhet'.2.2.1 hhet'.2.2.2
+    (matcher_finds_every_state_partial r hr o ho).1
 
 /-- one field changed: the accelerated matcher answers what the documentation says (and so does the reference matcher, by
     `pyFound_eq_selects`) for every pair of labels of an element, and for the radical flag against the same / no label -/
